@@ -161,7 +161,7 @@ class SymStr(object):
 
     def lower(s):
         # ASCII and Latin-1 letters are modelled exactly; other code points fork to concrete
-        return mkstr([_lower_cp(x) for x in s.c])
+        return mkstr([y for x in s.c for y in _lower_cp(x)])
 
     def upper(s):
         return mkstr([_upper_cp(x) for x in s.c])
@@ -236,16 +236,41 @@ class SymStr(object):
         return -1
 
 
+_LOWER_SPECIAL = None
+_AUX = [0]
+
+
+def _lower_special():
+    """non-ASCII code points whose lower() is not a single non-ASCII code point (computed from this
+    interpreter's unicode tables): U+0130 (two code points) and U+212A KELVIN SIGN ('k')"""
+    global _LOWER_SPECIAL
+    if _LOWER_SPECIAL is None:
+        sp = {}
+        for c in range(128, 0x110000):
+            l = chr(c).lower()
+            if len(l) != 1 or ord(l) < 128:
+                sp[c] = [ord(ch) for ch in l]
+        _LOWER_SPECIAL = sp
+    return _LOWER_SPECIAL
+
+
 def _lower_cp(x):
-    if type(x) is not SymInt:
-        return ord(chr(x).lower()) if len(chr(x).lower()) == 1 else x
+    """code points of lower() of one code point (a list: U+0130 lowers to two)"""
+    if type(x) is not SymInt or x.n.op == 'c':
+        return [ord(ch) for ch in chr(concretize(x)).lower()]
     if bool(x < 128):
-        return int_ite(is_upper(x), x + 32, x)
-    v = concretize(x)
-    l = chr(v).lower()
-    if len(l) != 1:
-        raise Inconclusive('lower() changes length')
-    return ord(l)
+        return [int_ite(is_upper(x), x + 32, x)]
+    for c, l in sorted(_lower_special().items()):
+        if bool(x == c):
+            return list(l)
+    # any other non-ASCII code point lowers to a single non-ASCII code point: over-approximated by a
+    # fresh unconstrained non-ASCII code point (sound for callers that only compare with ASCII text)
+    ctx = Ctx.cur
+    _AUX[0] += 1
+    name = 'aux:lower#%d' % len(ctx.order)
+    node = ir.var(name, 128, 0x10FFFF)
+    ctx.new_var(name, 'int', node, ir.var_domain(node))
+    return [SymInt(node)]
 
 
 def _upper_cp(x):
@@ -380,6 +405,8 @@ def parse_int(x, base=10):
 
 
 def to_str(x):
+    if isinstance(x, LazyStr):
+        x = x._force()
     if isinstance(x, SymStr):
         return x
     if isinstance(x, SymBool):
